@@ -133,8 +133,8 @@ func verifBackendToTunnel(raddr *net.UDPAddr, buf []byte, i int) bool {
 }
 
 //verif:contract ~/pkg/proto/udp.Forwarder$1
-//verif:props C03 C16
-//verif:kinds loop,post,pre,lock,nopanic
+//verif:props C03
+//verif:kinds loop,post,pre,lock
 func verif_Forwarder_replies(raddr *net.UDPAddr, udpConn *net.UDPConn) {
 	verif.Requires(raddr != nil && udpConn != nil, "called_by_the_forwarder")
 	verif.ResetEvents()
